@@ -5,6 +5,7 @@ package harness
 import (
 	"fmt"
 	"math/rand"
+	"os"
 	"sort"
 	"strconv"
 	"strings"
@@ -276,6 +277,12 @@ func (g *c17Gen) planCreate() *c17Plan {
 			name, attrs = "transfer", []triggertypes.Attribute{{Name: "recipient", Value: g.addrStr(x)}, {Name: "nosuchattr", Value: ""}}
 		default:
 			name, attrs = "coin_received", nil
+		}
+		if os.Getenv("VERIF_C17_RESERVED") == "1" && r.Intn(12) == 0 {
+			// a transaction event named like the height/time listener prefixes (see findings/C17.md):
+			// outside the property's text, so only generated on request
+			name, attrs = []string{"block-height", "block-time"}[r.Intn(2)], nil
+			shape = "reserved-event-name"
 		}
 		if r.Intn(25) == 0 {
 			attrs = append(attrs, triggertypes.Attribute{Name: " ", Value: "x"})
@@ -614,10 +621,6 @@ func c17History(t *testing.T, r *rand.Rand, w *CaseWriter, hi int) {
 		blocked := map[int]bool{}
 		for i := 0; i < nt; i++ {
 			var p *c17Plan
-			saveSeq := map[int]uint64{}
-			for k, v := range n.pendingSeq {
-				saveSeq[k] = v
-			}
 			n.lastSigners = nil
 			switch k := r.Intn(20); {
 			case k < 10:
